@@ -231,6 +231,7 @@ handler was invoked with (if it was) -/
 structure StepOut where
   resp : Resp
   seen : Option Msg
+deriving Repr, DecidableEq
 
 /-- the message an exception leaving `_render_to_pipe` is turned into (diagnostic payload
 text not modelled) -/
